@@ -54,6 +54,7 @@ type srv17q struct {
 	shape     string
 	f0, f1    byte
 	tcpMode   string          // ans | close
+	tcpSize   int             // 0: the natural TCP reply (tcpReply17); else a reply of exactly this many bytes (tcpReplySized17)
 	lateFor   map[string]bool // queries (hex) whose TCP reply is held back
 	held      []held17
 	udpSeen   int
@@ -165,6 +166,37 @@ func tcpReply17(q []byte, tag byte) []byte {
 	return r
 }
 
+// tcpReplySized17 is the server's TCP reply of exactly size bytes (12..65535) to q:
+// the query's id, QR (+RD), the question and one NULL record whose RDATA fills the
+// rest when there is room for them, else a header followed by bytes; every byte
+// behind the header is a function of the whole query and of size.
+func tcpReplySized17(q []byte, tag byte, size int) []byte {
+	qe := questionEnd17(q)
+	if qe == 0 {
+		qe = 12
+	}
+	h := fnv.New32a()
+	h.Write(q)
+	h.Write([]byte{tag, byte(size >> 8), byte(size)})
+	x := h.Sum32() | 1
+	r := make([]byte, 12, size)
+	copy(r, q[:2])
+	r[2], r[3] = 0x80|(q[2]&1), 0x80
+	if size >= qe+12 {
+		r[5], r[7] = 1, 1
+		r = append(r, q[12:qe]...)
+		rd := size - qe - 12
+		r = append(r, 0xc0, 12, 0, 10, 0, 1, 0, 0, 0, 1, byte(rd>>8), byte(rd))
+	}
+	for len(r) < size {
+		x ^= x << 13
+		x ^= x >> 17
+		x ^= x << 5
+		r = append(r, byte(x>>11))
+	}
+	return r
+}
+
 func (s *srv17q) serveUDP() {
 	buf := make([]byte, 65535)
 	for {
@@ -225,7 +257,13 @@ func (s *srv17q) serveTCP() {
 				if len(q) < 12 {
 					return
 				}
+				s.mu.Lock()
+				size := s.tcpSize
+				s.mu.Unlock()
 				r := tcpReply17(q, s.tag)
+				if size != 0 {
+					r = tcpReplySized17(q, s.tag, size)
+				}
 				frame := append([]byte{byte(len(r) >> 8), byte(len(r))}, r...)
 				s.mu.Lock()
 				s.tcpSeen = append(s.tcpSeen, q)
@@ -405,6 +443,117 @@ func runC17Shapes(r *Run) {
 		r.Eval(fmt.Sprintf("shape/%s/%02x%02x/%s", k.shape, k.f0, k.f1, k.tcp), true)
 		r.Count("shape:" + k.shape + ",tc=" + b01(tc))
 	}
+}
+
+// runC17TcpSizes: the TCP reply to a truncated query has every legal size. A TCP
+// frame announces its size in 16 bits, so replies of 13..65535 bytes can arrive;
+// the property ("the TCP reply is what the caller gets", over replies of any
+// size) asks for exactly those bytes back. Sizes: the boundaries around the
+// header, the classic UDP limit, a page, the 16-bit maximum, and seeded ones.
+func runC17TcpSizes(r *Run) {
+	srv, addr := newSrv17q('Z')
+	defer srv.close()
+	opt := upstream.Opt{}
+	if r.Rng.Intn(2) == 0 {
+		opt.IdleTimeout = time.Duration(2+r.Rng.Intn(20)) * time.Second
+	}
+	u, err := upstream.NewUpstream("udp://"+addr, opt)
+	if err != nil {
+		fatal(err)
+	}
+	defer u.Close()
+	sizes := []int{12, 13, 14, 511, 512, 513, 1232, 4095, 4096, 4097, 16383, 16384, 32767, 32768, 65533, 65534, 65535}
+	for i, n := 0, r.N(8, 200); i < n; i++ {
+		switch r.Rng.Intn(3) {
+		case 0:
+			sizes = append(sizes, 13+r.Rng.Intn(65535-12))
+		case 1:
+			sizes = append(sizes, 65535-r.Rng.Intn(64))
+		default:
+			sizes = append(sizes, 1<<uint(4+r.Rng.Intn(12))-1+r.Rng.Intn(3))
+		}
+	}
+	r.Rng.Shuffle(len(sizes), func(i, j int) { sizes[i], sizes[j] = sizes[j], sizes[i] })
+	fails := 0
+	for _, size := range sizes {
+		if fails >= 3 {
+			break
+		}
+		shape := shapes17[r.Rng.Intn(len(shapes17))]
+		f0, f1 := byte(0x82), byte(0)
+		if r.Rng.Intn(3) == 0 {
+			f0, f1 = byte(r.Rng.Intn(256))|2, byte(r.Rng.Intn(256))
+		}
+		srv.mu.Lock()
+		srv.shape, srv.f0, srv.f1, srv.tcpMode, srv.tcpSize = shape, f0, f1, "ans", size
+		n0 := len(srv.tcpSeen)
+		c0 := srv.tcpConns
+		srv.mu.Unlock()
+		q := query17(r)
+		q0 := append([]byte(nil), q...)
+		ctx, cancel := context.WithTimeout(context.Background(), 5*time.Second)
+		resp, err := u.ExchangeContext(ctx, q)
+		cancel()
+		srv.mu.Lock()
+		seen := append([][]byte(nil), srv.tcpSeen[n0:]...)
+		c1 := srv.tcpConns
+		srv.mu.Unlock()
+		want := tcpReplySized17(q0, srv.tag, size)
+		what := "other"
+		switch {
+		case err != nil || resp == nil:
+			what = "err"
+		case bytes.Equal(*resp, want):
+			what = "tcp"
+		case bytes.Equal(*resp, udpReply17(q0, shape, f0, f1)):
+			what = "udp"
+		}
+		sameQ := false
+		for _, b := range seen {
+			sameQ = sameQ || bytes.Equal(b, q0)
+		}
+		desc := map[string]any{"scenario": "TCP reply sizes", "tcp_reply_size": size, "udp_reply_shape": shape, "udp_reply": hx(udpReply17(q0, shape, f0, f1)),
+			"query": hx(q0), "got": what, "err": fmt.Sprint(err), "tcp_saw_queries": len(seen), "tcp_new_conns": c1 - c0,
+			"tcp_reply_head": hx(want[:min(len(want), 48)])}
+		if resp != nil && err == nil {
+			desc["reply_size"] = len(*resp)
+			desc["reply_head"] = hx((*resp)[:min(len(*resp), 48)])
+			for j := 0; j < len(*resp) && j < len(want); j++ {
+				if (*resp)[j] != want[j] {
+					desc["first_difference_at"] = j
+					break
+				}
+			}
+		}
+		if size <= 12 {
+			// a frame announcing 12 bytes (a bare header) is refused by the frame reader as
+			// "too small": recorded, not judged here (see the level note of the property)
+			r.Count("tcpsize:12->" + what)
+			continue
+		}
+		nf := r.meta.Dist["ORACLE-FAIL"]
+		if what != "tcp" {
+			r.Fail(fmt.Sprintf("UDP reply had TC set and the TCP side answered with a reply of %d bytes, but the caller did not get that reply byte for byte", size), desc)
+		} else if !sameQ {
+			r.Fail("the query sent over TCP is not the same query", desc)
+		}
+		if r.meta.Dist["ORACLE-FAIL"] > nf {
+			fails++
+		}
+		r.Line(fmt.Sprintf("xchg %02x%02x%02x%02x ans 1", q0[0], q0[1], f0, f1), what+" "+b01(c1 > c0 || len(seen) > 0))
+		r.Eval(fmt.Sprintf("tcpsize/%d/%s", size, shape), true)
+		switch {
+		case size >= 65534:
+			r.Count("tcpsize:65534..65535")
+		case size > 4096:
+			r.Count("tcpsize:4097..65533")
+		default:
+			r.Count("tcpsize:13..4096")
+		}
+	}
+	srv.mu.Lock()
+	srv.tcpSize = 0
+	srv.mu.Unlock()
 }
 
 func runC17Late(r *Run) {
